@@ -16,18 +16,18 @@ import (
 
 // RunOut is what one real goderive run on one scenario produced.
 type RunOut struct {
-	Sc       *Scenario
-	Exit     int
-	Stderr   string
-	TimedOut bool
-	Panicked bool
-	Changed  []string // user files (absolute) created/modified/removed, derived.gen.go excluded
-	Derived  string   // bytes of derived.gen.go after the run ("" if absent)
-	HasDer   bool
-	Post     PostObs
-	Events   []map[string]interface{}
-	Lines    [][]byte // RunStart + events + RunEnd, as NDJSON lines
-	Dir      string
+	Sc        *Scenario
+	Exit      int
+	Stderr    string
+	TimedOut  bool
+	Panicked  bool
+	Changed   []string // user files (absolute) created/modified/removed, derived.gen.go excluded
+	Derived   string   // bytes of derived.gen.go after the run ("" if absent)
+	HasDer    bool
+	Post      PostObs
+	Events    []map[string]interface{}
+	Lines     [][]byte // RunStart + events + RunEnd, as NDJSON lines
+	Dir       string
 	UserAfter map[string]string // contents of changed user files after the run
 }
 
